@@ -634,11 +634,12 @@ Section Pure.
   Let Hf : d_first_error_order cfg = false. Proof. destruct Hclean as (_ & _ & H & _). exact H. Qed.
   Let Hce : d_cache_failed_events cfg = false. Proof. destruct Hclean as (_ & _ & _ & _ & H & _). exact H. Qed.
   Let Hsi : d_singleton_mem cfg = false. Proof. destruct Hclean as (_ & _ & _ & _ & _ & H & _). exact H. Qed.
-  Let Hsp : d_stale_persister cfg = false. Proof. destruct Hclean as (_ & _ & _ & _ & _ & _ & H). exact H. Qed.
+  Let Hsp : d_stale_persister cfg = false. Proof. destruct Hclean as (_ & _ & _ & _ & _ & _ & H & _). exact H. Qed.
+  Let Hfp : d_forgets_persister cfg = false. Proof. destruct Hclean as (_ & _ & _ & _ & _ & _ & _ & H). exact H. Qed.
 
   (** what a transaction does to the block's write set, computed without any node-local memory *)
   Definition tx_pure (i : N) (inv : bool) (w : smap val) (t : tx) : smap val * receipt :=
-    let '(v', r) := exec_tx cfg o base h i inv (Build_view w [] false false) t in (v_w v', r).
+    let '(v', r) := exec_tx cfg o base h i inv (Build_view w [] false []) t in (v_w v', r).
   Fixpoint txs_pure (i : N) (inv : smap unit) (w : smap val) (ts : list tx) : smap val * list receipt :=
     match ts with
     | [] => (w, [])
@@ -679,8 +680,8 @@ Section Pure.
     let '(v', r) := exec_tx cfg o base h i inv v t in
     (v_w v', r) = tx_pure i inv (v_w v) t /\ cache_ok base (v_cache v') (v_w v').
   Proof.
-    intro Hc. unfold tx_pure, exec_tx. rewrite Hf, Hce, Hsi, Hsp. destruct inv; [split; [reflexivity|exact Hc]|].
-    destruct t as [ok|ok tch evs|site ids| |valid b| |b]; cbn [andb orb].
+    intro Hc. unfold tx_pure, exec_tx. rewrite Hf, Hce, Hsi, Hsp, Hfp. destruct inv; [split; [reflexivity|exact Hc]|].
+    destruct t as [ok|ok tch evs|site ids|c forgets ok| |valid b| |b]; cbn [andb orb]; rewrite ?andb_false_r.
     - cbn [rc_ok rc_svc_events v_w v_cache]. split; [reflexivity|]. destruct (ok || false); exact Hc.
     - cbn [rc_ok rc_svc_events v_w v_cache]. split; [reflexivity|].
       destruct ok; cbn [orb].
@@ -688,6 +689,7 @@ Section Pure.
       + exact Hc.
     - destruct (pick o h false site i ids); cbn [rc_ok rc_svc_events v_w v_cache failed orb cache_store fold_left].
       all: split; [reflexivity|exact Hc].
+    - cbn [rc_ok rc_svc_events v_w v_cache failed orb cache_store fold_left]. split; [reflexivity|]. destruct (ok || false); exact Hc.
     - cbn [rc_ok rc_svc_events v_w v_cache failed orb]. split; [reflexivity|exact Hc].
     - destruct valid.
       + rewrite (handle_ibtp_cache cfg o base h i (v_cache v) (v_w v) b h Hc).
@@ -818,7 +820,7 @@ Record inv (m : memory) (st : smap val) : Prop := {
   i_cache : cache_ok st (m_svc_cache m) []
 }.
 
-Definition mem0 (height : N) (hash : hsh) : memory := Build_memory [] [] [] false false height hash.
+Definition mem0 (height : N) (hash : hsh) : memory := Build_memory [] [] [] false [] height hash.
 
 Lemma inv_mem0 height hash st : ssorted st -> inv (mem0 height hash) st.
 Proof.
@@ -846,10 +848,10 @@ Proof.
   pose proof (exec_txs_pure cfg Hc o_id st h (b_txs b) 0 ivm
                 (Build_view [] (m_svc_cache m) (m_singleton m) (m_persister m)) Hca) as H1.
   pose proof (exec_txs_pure cfg Hc o_id st h (b_txs b) 0 ivm
-                (Build_view [] [] false false) (cache_ok_nil st [])) as H2.
+                (Build_view [] [] false []) (cache_ok_nil st [])) as H2.
   cbn [v_w v_cache] in H1, H2.
   destruct (exec_txs cfg o_id st h 0 ivm (Build_view [] (m_svc_cache m) (m_singleton m) (m_persister m)) (b_txs b)) as [v1 rs].
-  destruct (exec_txs cfg o_id st h 0 ivm (Build_view [] [] false false) (b_txs b)) as [v1' rs'].
+  destruct (exec_txs cfg o_id st h 0 ivm (Build_view [] [] false []) (b_txs b)) as [v1' rs'].
   destruct H1 as [E1 Hc1]. destruct H2 as [E2 _]. rewrite <- E1 in E2. inversion E2 as [[Ew Er]].
   rewrite Ew. clear E1 E2 Er.
   set (w2 := set_timeout_list o_id st h (v_w v1) (b_txs b) rs).
@@ -1004,7 +1006,7 @@ Lemma o_id_ok : oracle_ok o_id.
 Proof. split; intros; cbn; apply Permutation_refl. Qed.
 
 Definition only (f : N) : Defects :=
-  Build_Defects (f =? 1) (f =? 2) (f =? 3) (f =? 4) (f =? 5) (f =? 6) (f =? 7) false.
+  Build_Defects (f =? 1) (f =? 2) (f =? 3) (f =? 4) (f =? 5) (f =? 6) (f =? 7) (f =? 8) false.
 
 Definition av : svcrec := Build_svcrec true true.
 Definition unav : svcrec := Build_svcrec false true.
@@ -1055,7 +1057,7 @@ Qed.
 
 (** 5. a failed transaction's SERVICE event stays in the cache of the node that kept running *)
 Definition w_cache : list block :=
-  [blk [TGov false true [(16, unav)]]; blk [TIbtp true (Build_ibtp 0 16 1 0 0 None)]].
+  [blk [TGov false [1] [(16, unav)]]; blk [TIbtp true (Build_ibtp 0 16 1 0 0 None)]].
 Lemma cache_failed_events_refuted :
   exists g bs r1 r2, run (only 5) o_id r1 g bs <> run (only 5) o_id r2 g bs.
 Proof.
@@ -1074,13 +1076,26 @@ Proof.
 Qed.
 
 (** 7. promoted core-manager method: previous call's Persister or nil *)
-Definition w_persist : list block := [blk [TGov true true []]; blk [TPromoted]].
+Definition w_persist : list block := [blk [TGov true [1] []]; blk [TPromoted]].
 Lemma stale_persister_refuted :
   exists g bs r1 r2, run (only 7) o_id r1 g bs <> run (only 7) o_id r2 g bs.
 Proof.
   exists w_genesis, w_persist, never, before1.
   intro H. apply (f_equal (map r_receipts)) in H. vm_compute in H. discriminate.
 Qed.
+
+(** 8. an exported manager method that forgets to re-bind the Persister (mutation class): works on
+    the node that kept running, dies on the one restarted right before it *)
+Definition w_forgets : list block := [blk [TMgrCall 0 false true]; blk [TMgrCall 0 true true]].
+Lemma forgets_persister_refuted :
+  exists g bs r1 r2, run (only 8) o_id r1 g bs <> run (only 8) o_id r2 g bs.
+Proof.
+  exists w_genesis, w_forgets, never, before1.
+  intro H. apply (f_equal (map r_receipts)) in H. vm_compute in H. discriminate.
+Qed.
+Example fixed_forgets_example :
+  map (fun r => map rc_ok (r_receipts r)) (run cfg_fixed o_id before1 w_genesis w_forgets) = [[]; [true]; [true]].
+Proof. vm_compute. reflexivity. Qed.
 
 (** non-vacuity: on the same witnesses the repaired model gives one answer, and that answer is
     not trivial (the group notification and the timeout list are really produced) *)
@@ -1142,7 +1157,7 @@ Qed.
     every value of these inputs, provided both runs are given the SAME inputs; that two nodes
     compute the same inputs is checked by the replica comparison only. *)
 Corollary opaque_execution_partial :
-  forall (g : list (N * val)) (pre post : list block) (ok touch : bool) (evs : list (N * svcrec))
+  forall (g : list (N * val)) (pre post : list block) (ok : bool) (touch : list N) (evs : list (N * svcrec))
          (o1 o2 : oracle) (r1 r2 : nat -> bool),
   oracle_ok o1 -> oracle_ok o2 ->
   run cfg_fixed o1 r1 g (pre ++ blk [TGov ok touch evs; TOpaque ok] :: post) =
